@@ -3,13 +3,15 @@
 EXTENDS Auction
 
 C(m, k) == [min |-> m, key |-> k, grace |-> 0]
-\* quick: four assignments that together give every relay flag (minimum 0 / 2, key unknown / from the
-\* configuration / from the provider) next to every other
-MCCfgOne == { <<C(0, "config"), C(2, "provider"), C(0, "none")>> }
+\* single auctions: assignments that together give every relay flag (minimum 0 / 2, key unknown / from
+\* the configuration / from the relay client) next to every other
+MCProvMid == { <<FALSE, TRUE, FALSE>> }
+MCProvNone3 == { <<FALSE, FALSE, FALSE>> }
+MCProvNone2 == { <<FALSE, FALSE>> }
+MCProvSecond == { <<FALSE, FALSE>>, <<FALSE, TRUE>> }
+MCCfgOne == { <<C(0, "config"), C(2, "none"), C(0, "none")>> }
 MCCfgSmall == { <<C(0, "config"), C(2, "config"), C(0, "none")>>,
-                <<C(2, "none"), C(0, "provider"), C(2, "config")>> }
-\* thorough: every assignment
-MCCfgAll == [Relays -> {C(m, k) : m \in {0, 2}, k \in {"none", "config"}}]
+                <<C(2, "none"), C(0, "config"), C(2, "config")>> }
 \* bids with at most one eligibility defect (the exhaustive thorough run uses Answers: all combinations)
 Defects(a) == (IF a.feeZero THEN 1 ELSE 0) + (IF ~a.tsOk THEN 1 ELSE 0) + (IF a.sig # "valid" THEN 1 ELSE 0)
 MCAnswersSingle == {a \in Bids : Defects(a) <= 1} \cup {NoBidAnswer, ErrorAnswer}
@@ -19,4 +21,22 @@ MCTop == CHOOSE v \in Values : \A w \in Values : w <= v
 MCAnswersLean == {a \in Bids : Defects(a) = 0 \/ (Defects(a) = 1 /\ a.val = MCTop)} \cup {NoBidAnswer, ErrorAnswer}
 MCAnswersClean == {a \in Bids : Defects(a) = 0} \cup {NoBidAnswer, ErrorAnswer}
 MCCfgPair == { <<C(0, "config"), C(2, "none")>> }
+
+\* histories: the SAME two relay addresses with different per-auction configurations (minimum 0 / 2, the
+\* public key in the configuration or not), two builder catalogues, bids between the minimums and a
+\* badly signed one
+MCCfgHist == { <<C(0, "none"), C(0, "none")>>, <<C(2, "config"), C(0, "none")>>, <<C(0, "config"), C(2, "none")>> }
+MCAnswersHist == {a \in Bids : Defects(a) = 0} \cup {a \in Bids : a.val = MCTop /\ a.bld = "std" /\ a.sig = "invalid" /\ ~a.feeZero /\ a.tsOk}
+                 \cup {NoBidAnswer}
+\* overlap: two auctions in progress at once
+MCCfgOverlap == { <<C(0, "none"), C(0, "config")>>, <<C(2, "none"), C(0, "none")>> }
+MCAnswersOverlap == {a \in Bids : Defects(a) = 0} \cup {NoBidAnswer}
+
+\* histories use the auction indices and the keys in order (both are interchangeable)
+KeysInOrder == \A i \in Auc : st'[i] # "idle" => (key'[i] = i /\ \A j \in Auc : j < i => st'[j] # "idle")
+
+\* reachability witnesses (must be violated: the passing runs are not empty)
+NeverThreeDone == Cardinality(Done \cup Past) < 3
+NeverTwoOpen == Cardinality(Open) < 2
+NeverBothWinOverlapped == ~(\E i, j \in Auc : i # j /\ st[i] = "done" /\ st[j] = "open" /\ winner[i] # NoWin /\ winner[j] # NoWin)
 =============================================================================
